@@ -1,6 +1,7 @@
 import Sbepp.Drive.Common
 import Sbepp.Spec.Observe
 import Sbepp.Spec.Encode
+import Sbepp.Gen.SizeFormula
 
 namespace Sbepp.Drive.Wire
 open Sbepp Sbepp.Schema Sbepp.Observe
@@ -75,7 +76,11 @@ def decode (payload : String) : String :=
             let modelObs := m.hdrLeaves.map (fun l => leafObs bo "h." l (slice image l.off l.size))
               ++ modelL bo image "" m.level m.hdrSize wblM
               ++ [s!"size={endL bo image L m.hdrSize wblM}"]
-            s!"conf={conf} image={SExp.hex image} spec={";".intercalate specObs} model={";".intercalate modelObs}"
+            let counts := match m.level, root with
+              | .mk _ _ gs _, .mk _ gvs _ => Gen.countsGs gs gvs
+            let td := Gen.totalData root
+            let cs := ",".intercalate (counts.map toString)
+            s!"conf={conf} image={SExp.hex image} spec={";".intercalate specObs} model={";".intercalate modelObs} counts={cs} tdata={td} traitsize={Gen.messageSize m counts td}"
           | _, _ => "bad-op bad-value"
     | _, _, _ => "bad-op bad-request"
 
